@@ -409,10 +409,11 @@ impl Check for C08 {
             1 => rng.gen_range(5_000..600_000).min(room),
             _ => rng.gen_range(600_000..2_400_000).min(room),
         };
-        let total = rng.gen_range(HOUR_MS / 2..8 * HOUR_MS);
-        let nops = rng.gen_range(4..=40usize);
+        let total = if rng.gen_bool(0.8) { rng.gen_range(2 * HOUR_MS..10 * HOUR_MS) } else { rng.gen_range(HOUR_MS / 2..2 * HOUR_MS) };
+        let nops = rng.gen_range(6..=60usize);
         let keys = rng.gen_range(1..=5u64);
         let mut events = Vec::new();
+        let lossy = rng.gen_bool(0.6);
         for _ in 0..nops {
             let t = rng.gen_range(0..total);
             let r = rng.gen_range(0..n);
@@ -422,7 +423,7 @@ impl Check for C08 {
                 if d == r {
                     continue;
                 }
-                if rng.gen_bool(0.12) && dmax_ms > 20_000 {
+                if rng.gen_bool(if lossy { 0.45 } else { 0.1 }) && dmax_ms > 20_000 {
                     lost.push(d);
                     let rt = t + rng.gen_range(0..dmax_ms / 4);
                     let left = t + dmax_ms - rt;
@@ -440,7 +441,7 @@ impl Check for C08 {
             }
             events.push(Ev::Op { t, r, key: rng.gen_range(0..keys), del: rng.gen_bool(0.45), to, lost });
         }
-        for _ in 0..rng.gen_range(0..=12) {
+        for _ in 0..rng.gen_range(0..=30) {
             let r = rng.gen_range(0..n);
             let mut peer = rng.gen_range(0..n);
             if peer == r {
@@ -456,8 +457,8 @@ impl Check for C08 {
                 rm_first: rng.gen_bool(0.5),
             });
         }
-        for _ in 0..rng.gen_range(0..=10) {
-            events.push(Ev::Purge { t: rng.gen_range(0..total + dmax_ms), r: rng.gen_range(0..n) });
+        for _ in 0..rng.gen_range(0..=16) {
+            events.push(Ev::Purge { t: rng.gen_range(total / 3..total + dmax_ms), r: rng.gen_range(0..n) });
         }
         events.sort_by_key(|e| e.t());
         let base_ms = rng.gen_range(1_000_000_000u64..60_000_000_000) / 4 * 4;
